@@ -213,9 +213,18 @@ def rule_r3(repo, run, types):
               "__gc must delete the object and null the pointer", t.loc(d.raw))
 
 
+def rule_x(repo, run):
+    R = run.rule("C18.R4", "variants generated for other languages never enter the Lua overload set (C15.R4: the "
+                           "C/Fortran passes do not touch the Lua flag)")
+    from checks import c15
+    from sa.report import import_rules
+    import_rules(run, R, c15, repo, {"C15.R4"}, only=lambda c: "lua" in c.lower())
+
+
 def run(repo, run, tier):
     tables.check_model_assumptions(repo)
     types = tables.TypeTable(repo)
     rule_r1(repo, run, types)
     rule_r2(repo, run)
     rule_r3(repo, run, types)
+    rule_x(repo, run)
